@@ -260,6 +260,55 @@ WClose ==
                                     IF Lmtp /\ st.dwcb THEN "nil" ELSE FirstNeg(v), n,
                                     IF Lmtp /\ st.dwcb THEN [i \in 1..n |-> <<st.rcpts[i], v[i]>>] ELSE <<>>)
 
+(***************************************************************************)
+(* Client.SendMail(from, to, r): Mail; Rcpt for each address; Data; copy;   *)
+(* Close - returning the first error.  The peer's decisions for the         *)
+(* commands after the hello are the sequence cs (one per command written).  *)
+(***************************************************************************)
+SendTos == {<<"a">>, <<"a", "b">>}
+
+LabelS(args, d, cs, v, lines, res) ==
+  [call |-> "SendMail", args |-> args, dec |-> [g |-> d.g, e |-> d.e, es |-> d.es, f |-> d.f, c |-> NoDec],
+   cs |-> cs, v |-> v, lines |-> lines, res |-> res, reads |-> 0, cbs |-> <<>>]
+
+SendMail(to) ==
+  /\ ~Busy /\ ~st.sTxn
+  /\ \E d \in HelloDecs(st) :
+       LET P == Hello(st, d) IN
+       IF P.err # "nil" THEN
+            /\ st' = P.s
+            /\ last' = LabelS(to, d, <<>>, <<>>, P.lines, P.err)
+       ELSE LET s1 == [P.s EXCEPT !.rcpts = <<>>]
+                ml == <<"MAIL">> \o MailParams(s1, FALSE, 0) IN
+            IF s1.conn # "open" THEN
+                 /\ st' = s1
+                 /\ last' = LabelS(to, d, <<>>, <<>>, P.lines, "io")
+            ELSE \E cm \in {"250", "550"} :
+                 IF cm # "250" THEN
+                      /\ st' = s1
+                      /\ last' = LabelS(to, d, <<cm>>, <<>>, Append(P.lines, ml), "smtp" \o cm)
+                 ELSE \E k \in 0..Len(to) :   \* the k-th recipient is refused (0: none)
+                      LET n == IF k = 0 THEN Len(to) ELSE k - 1      \* recipients accepted
+                          acc == SubSeq(to, 1, n)
+                          rl == [i \in 1..(IF k = 0 THEN Len(to) ELSE k) |-> <<"RCPT", to[i]>>]
+                          rc == [i \in 1..(IF k = 0 THEN Len(to) ELSE k) |-> IF i = k THEN "550" ELSE "250"]
+                          s2 == [s1 EXCEPT !.rcpts = acc, !.sTxn = TRUE, !.sList = acc]
+                      IN IF k # 0 THEN
+                              /\ st' = s2
+                              /\ last' = LabelS(to, d, <<cm>> \o rc, <<>>, Append(P.lines, ml) \o rl, "smtp550")
+                         ELSE \E cd \in {"354", "554"} :
+                              IF cd = "554" THEN
+                                   /\ st' = s2
+                                   /\ last' = LabelS(to, d, <<cm>> \o rc \o <<cd>>, <<>>, Append(P.lines, ml) \o rl \o <<<<"DATA">>>>, "smtp554")
+                              ELSE \E v \in Verdicts(s2) :
+                                   LET s3 == [s2 EXCEPT !.sTxn = FALSE, !.sList = <<>>]
+                                       ls == Append(P.lines, ml) \o rl \o <<<<"DATA">>, <<"BODY">>>> IN
+                                   IF v = <<"stall">> THEN
+                                        /\ st' = [s3 EXCEPT !.conn = "stuck"]
+                                        /\ last' = LabelS(to, d, <<cm>> \o rc \o <<cd>>, v, ls, "io")
+                                   ELSE /\ st' = s3
+                                        /\ last' = LabelS(to, d, <<cm>> \o rc \o <<cd>>, v, ls, FirstNeg(v))
+
 CloseCall ==
   /\ st' = [st EXCEPT !.conn = "closed"]
   /\ last' = Label("Close", <<>>, NoHello, NoDec, <<>>, "any", 0, <<>>)
@@ -274,6 +323,7 @@ Next ==
   \/ \E kind \in {"Data", "LMTPData"} : Data(kind)
   \/ WClose
   \/ CloseCall
+  \/ \E to \in SendTos : SendMail(to)
 
 Spec == Init /\ [][Next]_vars
 
@@ -296,7 +346,7 @@ Utf8NotDropped ==
 \* C15: lock step - every command line written is answered before the call returns
 \* (the message body counts as one step answered by its final replies)
 OneLinePerStep ==
-  last.call \notin {"init", "WClose"} =>
+  last.call \notin {"init", "WClose", "SendMail"} =>
      Len(Lines) + (IF last.dec.g \in {"220", "554"} THEN 1 ELSE 0) = last.reads
 
 \* MAIL is only ever sent to a peer that accepted a greeting command
